@@ -6,7 +6,7 @@ from ..refs import c05_tankgen as G
 
 ID = 'C05'
 LEVEL = 'exploration'
-CASES = {'quick': 480, 'thorough': 8000}
+CASES = {'quick': 400, 'thorough': 6000}
 CASE_TIMEOUT = 30
 TECHNIQUE = ('property-based testing (Hypothesis): generated tank networks with 1-6 conditional simple controls, simulated '
              'with WNTRSimulator (report step ALL); every control is re-evaluated on every reported row by an own '
@@ -26,6 +26,7 @@ ASSUMPTIONS = ['only runs WNTR reports as converged are judged (not converged / 
                'conflict = another control on the same link commanding a different value of the same attribute, or a valve '
                'setting control (implies status ACTIVE) against a valve status control; a conflicting control that is true '
                'or within 1e-6 of its threshold with equal or higher priority excuses either outcome',
+               'a link reported closed carries no reported flow (|q| <= Qtol), otherwise the command has not taken effect in that step',
                'an adjacent tank "holds a link closed" when its level is within Htol of min (max) level and the link could '
                'only drain (fill) it: pumps / CV pipes by their orientation, plain pipes by the reported heads',
                'the partial-step clause is demanded only where the reported state of the target at the previous row differs '
@@ -40,6 +41,15 @@ TOLERANCES = {'threshold_skip': 1e-6,
               'Htol': '1.524e-4 m (+1e-6) for check valves and tank limits (WNTRSimulator._Htol)',
               'pump_shutoff': 'h_end - h_start > Hmax - 1e-3 m with Hmax = 4/3*H (1-point curve) or H(0) (3-point curve)'}
 
+LEVEL_TEXT = ('exploration: every conditional simple control of every generated network was re-evaluated on every reported '
+              'row of the converged WNTRSimulator runs (plus a deterministic family with a pressure ramp of ~2 cm per '
+              'row); no violation means none was found in the explored sample, not that none exists')
+LEVEL_NOTE = ('trusted base: the reference in this module (threshold comparison, conflict/priority rule, the three '
+              'exceptions evaluated from reported heads and levels, Euler crossing time), refs/c05_tankgen.py (generator, '
+              'own volume-curve interpolation), vlib.spec.build_wn/run_wntr; observation through results.node/link tables '
+              'with report_timestep ALL. Not covered: rules, time controls (C04), controls on leaks/demands, runs that do '
+              'not converge')
+
 FEAT = {'nctl': (1, 6), 'tanks': (1, 3), 'vol_curve': 0.35, 'pdd': 0.15}
 STATUS_CODE = {'CLOSED': 0, 'OPEN': 1, 'ACTIVE': 2}
 
@@ -49,6 +59,50 @@ def strategy(tier='quick'):
     if tier == 'thorough':
         f['max_steps'] = 200
     return G.scenario(f)
+
+
+def enumerate_cases(tier='quick'):
+    """Deterministic family: a junction pressure that ramps by ~2 cm per reported row (large tank draining or being
+    filled at a constant rate), with pressure thresholds at arbitrary 3-decimal values: every crossing has a row that lies
+    0-2 cm beyond the threshold, which random thresholds almost never produce (comparison resolution of the condition)."""
+    for filling in (False, True):
+        for strict in (True, False):
+            for l3 in ('OPEN', 'CLOSED'):
+                for hyd in ((900,) if tier == 'quick' else (900, 1800)):
+                    q = -0.006 if filling else 0.004
+                    p0 = 25.0
+                    sgn = 1.0 if filling else -1.0
+                    op = ('>' if strict else '>=') if filling else ('<' if strict else '<=')
+                    cmds = ['CLOSED', 'OPEN', 'CLOSED'] if l3 == 'OPEN' else ['OPEN', 'CLOSED', 'OPEN']
+                    ctl = []
+                    for prio, (off, cmd) in enumerate(zip((0.313, 0.777, 1.241), cmds)):
+                        # later thresholds have higher priority, so exactly one control is the one to be obeyed at any time
+                        ctl.append({'kind': 'cond', 'node': 'J1', 'nattr': 'pressure', 'op': op, 'thr': round(p0 + sgn * off, 3),
+                                    'link': 'L3', 'attr': 'status', 'value': cmd, 'priority': prio + 1})
+                    ctl.append({'kind': 'cond', 'node': 'J2', 'nattr': 'pressure', 'op': op, 'thr': round(p0 - 2.0 + sgn * 1.037, 3),
+                                'link': 'V1', 'attr': 'setting', 'value': 7.5})
+                    yield {
+                        'opts': {'duration': 24 * 3600, 'hyd': hyd, 'pat': 3600, 'rep': 'ALL', 'rule': 3600, 'pattern_start': 0,
+                                 'start_clocktime': 0, 'dm': 1.0, 'demand_model': 'DD', 'pmin': 0.0, 'preq': 0.07, 'pexp': 0.5,
+                                 'hw_approx': 'default'},
+                        'patterns': {'P1': [1.0]}, 'curves': {},
+                        'junctions': [{'name': 'J1', 'elev': 0.0, 'demands': [[q, 'P1', None]]},
+                                      {'name': 'J2', 'elev': 2.0, 'demands': [[0.002, 'P1', None]]},
+                                      {'name': 'J3', 'elev': 2.0, 'demands': [[0.0005, 'P1', None]]}],
+                        'tanks': [{'name': 'T1', 'elev': 20.0, 'init': 5.0, 'min': 0.0, 'max': 9.0, 'diam': 18.0 * (hyd / 900.0) ** 0.5,
+                                   'min_vol': 0.0, 'vol_curve': None}],
+                        'reservoirs': [],
+                        'pipes': [{'name': 'L1', 'a': 'T1', 'b': 'J1', 'len': 50.0, 'diam': 0.4, 'C': 120.0, 'minor': 0.0,
+                                   'status': 'OPEN', 'cv': False},
+                                  {'name': 'L2', 'a': 'J1', 'b': 'J2', 'len': 100.0, 'diam': 0.3, 'C': 120.0, 'minor': 0.0,
+                                   'status': 'OPEN', 'cv': False},
+                                  {'name': 'L3', 'a': 'J1', 'b': 'J2', 'len': 100.0, 'diam': 0.2, 'C': 120.0, 'minor': 0.0,
+                                   'status': l3, 'cv': False}],
+                        'pumps': [],
+                        'valves': [{'name': 'V1', 'a': 'J2', 'b': 'J3', 'type': 'TCV', 'diam': 0.2, 'minor': 0.0, 'setting': 1.0,
+                                    'status': 'ACTIVE'}],
+                        'controls': ctl, 'profile': 'ramp', 'meta': {'feed': 'none(ramp)', 'href': 25.0, 'qm': abs(q), 'qp': abs(q)},
+                    }
 
 
 def summarize(case):
@@ -189,6 +243,11 @@ def control_checks(case, run, tags):
                 if not ok:
                     return ('closed_not_closed/%s/%s' % (tkind, 'tank' if a['tank'] else 'pressure'),
                             '%s but reported status is %d' % (where, R.status[c['link']][k]))
+                flow = run.link['flowrate'][c['link']][k]
+                if not abs(flow) <= G.QTOL:
+                    return ('closed_but_flowing/%s/%s' % (tkind, 'tank' if a['tank'] else 'pressure'),
+                            '%s and the link is reported closed, but its reported flow is %.6g (the command has not taken '
+                            'effect in the hydraulics of this step)' % (where, flow))
                 tags.append('checked:closed')
             else:
                 if not ok:
